@@ -10,4 +10,12 @@ func init() {
 		Bounds:   "params (history length, k actions); the hub goroutine runs whenever the harness waits (run-to-block): one schedule per action sequence; listener buffers (100) and the operation queue (100) never fill within the bound",
 		Assumes:  []string{"WebSocket I/O (gorilla/websocket) is outside the encoding: WSReader/WSWriter are represented by the channel receive and the Close() call they perform", "the v1 listener is not driven (it shares Receive/Close with v2 and ignores deletes by design)"},
 	})
+	register(Harness{
+		Prop: "C15", Pkg: "msghub", Func: "VerifC15Burst",
+		Quick:    [][]int64{{103, 3}},
+		Thorough: [][]int64{{103, 3}, {130, 0}, {105, 5}},
+		Unwind:   260,
+		Desc:     "a burst of n > 100 events dispatched while the hub goroutine is held inside a slow monitor (symbolic gate): the 100-slot operation queue fills and the dispatcher waits; afterwards the monitor has every event once and in order, and a late monitor gets the retained history",
+		Bounds:   "params (burst size n, history length); one slow monitor, one dispatcher goroutine; run-to-block scheduling plus the gate",
+	})
 }
